@@ -17,7 +17,7 @@ RULE = ("Hypothesis: register size N in 3..8, m in 2..min(6,N) measured qubits g
         "all/some indices counted from the end (q-N; today the library accepts these -- a clean IndexError/ValueError/TypeError/"
         "CircuitError refusal is counted as 'rejected', never as a violation, but a silently wrong answer is one); distinct by (N, list, connectivity, state). Oracle: partial trace "
         "of the dense state in list order; identities off the list in full mode; density matrices in little-endian order.")
-ASSUMPTIONS = ["dense simulator and partial trace (self-tested)", "lists of plain integer qubit indices (Qubit objects raise TypeError before and after the fix and are outside the generator)"]
+ASSUMPTIONS = ["results: FakeResult or genuine qiskit.result.Result alternating; stabilizer measurements sit at index 0..2 of a job with decoy experiments of the same name (result_index given)", "dense simulator and partial trace (self-tested)", "lists of plain integer qubit indices (Qubit objects raise TypeError before and after the fix and are outside the generator)"]
 BUDGET = {"quick": 400, "thorough": 3000}
 TOL = 1e-9
 
@@ -69,7 +69,7 @@ def check_subset(case):
         ql = tuple(handed) if case.get("zero_seed", 0) % 3 == 0 else list(handed)      # sequence type must not matter
         circs = L.tomo.full_state_tomography_circuits(prep, name, ql)
         counts = [tomo.rescale_counts(tomo.exact_counts([(1.0, dense.run(tomo.measurement_ops(qc), N))], N, rng), case.get("zero_seed", 0) + i) for i, qc in enumerate(circs)]
-        fitter = L.tomo.FullStateTomographyFitter(tomo.FakeResult(counts), circs)
+        fitter = L.tomo.FullStateTomographyFitter(tomo.make_result(counts, circs, case.get("zero_seed", 0)), circs)
         ev_red, p1 = tomo.convert_expectations(fitter.expectation_values(full_hilbert_space=False))
         ev_full, p2 = tomo.convert_expectations(fitter.expectation_values(full_hilbert_space=True))
         for p in (p1 + p2)[:1]:
@@ -103,7 +103,8 @@ def check_subset(case):
             stab = sweep.make_stabilizer(m, gens, "strings+sign")
             qc = L.tomo.stabilizer_measurement_circuit(prep, stab, name, list(handed))
             counts = tomo.exact_counts([(1.0, dense.run(tomo.measurement_ops(qc), N))], N, rng)
-            fit = L.tomo.StabilizerMeasurementFitter(tomo.FakeResult([counts]), qc)
+            result, k = tomo.job_with_decoys(counts, qc, case.get("zero_seed", 0))
+            fit = L.tomo.StabilizerMeasurementFitter(result, qc, result_index=k)
             e_red, p1 = tomo.convert_expectations(fit.expectation_values(full_hilbert_space=False))
             e_full, p2 = tomo.convert_expectations(fit.expectation_values(full_hilbert_space=True))
             span = set(pauli.span_xz(gens))
